@@ -204,3 +204,38 @@ Definition update_and_fit (r : result qplane) (delta : arr QS) : result qplane :
   rbind r (fun p => fit_tilt (add_opd p delta)).
 Definition fit_history (p : qplane) (deltas : list (arr QS)) : result qplane :=
   fold_left update_and_fit deltas (fit_tilt p).
+
+(* ================================================================================================
+   Entry points, refusal paths and early returns around the numeric core (deepen work item)
+   ================================================================================================ *)
+
+(* ---- DispersiveTilt.__init__: asserts trace order >= 1 and dispersion order >= 1; the analytic branches are taken
+   per polynomial when its order is exactly 1, every other order goes to scipy (outside the model) ---- *)
+Inductive disp_kind :=
+| DispRefused                  (* AssertionError *)
+| DispFirst (t : tilt)         (* both polynomials of first order: the modelled element *)
+| DispHigher.                  (* some polynomial of order > 1: numeric branch *)
+Definition mk_disp (trace disp : list Qc) (root : Qc) : disp_kind :=
+  if (Nat.ltb (length trace) 2) || (Nat.ltb (length disp) 2) then DispRefused
+  else match trace, disp with
+       | [t0; t1], [d0; d1] => DispFirst (TiltDisp t0 t1 d0 d1 root)
+       | _, _ => DispHigher
+       end.
+
+(* ---- propagate_fft: _has_tilt(wavefront) -> NotImplementedError ---- *)
+Definition is_nil {A} (l : list A) : bool := match l with [] => true | _ => false end.
+Definition has_tilt (fields : list (list tilt)) : bool := existsb (fun tl => negb (is_nil tl)) fields.
+Definition fft_guard (fields : list (list tilt)) : result unit :=
+  if has_tilt fields then Err NotImplementedErr else Ok tt.
+
+(* ---- the entry of fit_tilt: which planes are fitted at all, and what happens to the receiver ---- *)
+Inductive pkind := KPlane | KPupil | KImage.
+(* returns (the plane handed back, the receiver after the call).
+   Image.fit_tilt returns self untouched; a plane without a 2-d mask (shape ()) has ptt_vector None and is handed
+   back as is - before the pixelscale is looked at; otherwise Plane.fit_tilt on the plane itself (inplace) or on a copy *)
+Definition fit_tilt_call (k : pkind) (has_mask inplace : bool) (p : qplane) : result (qplane * qplane) :=
+  match k with
+  | KImage => Ok (p, p)
+  | _ => if negb has_mask then Ok (p, p)
+         else rbind (fit_tilt p) (fun q => Ok (q, if inplace then q else p))
+  end.
